@@ -219,10 +219,10 @@ class Family:
         self.style = style
 
     def key_maps(self):
-        return {"default": True, "off": False, "custom": dict(self.key_custom)}
+        return {"default": True, "off": False, "custom": dict(self.key_custom), "empty": {}}  # {}: a valid (falsy) map that shortens nothing
 
     def value_maps(self, labels):
-        out = {"default": True, "off": False}
+        out = {"default": True, "off": False, "empty": {}}
         out.update(self.value_custom(labels))
         return out
 
